@@ -211,7 +211,7 @@ Qed.
 Lemma fwd_lines_spec o : forall ls bs started idx acc,
   0 <= idx ->
   pend_ok idx (idx + Z.of_nat (length ls)) bs started ->
-  (N.eqb (o_eol o) LF = true -> Forall (fun l => utf8_valid l = true) ls) ->
+  Forall (fun l => utf8_valid l = true) ls ->
   fwd_lines o ls bs started idx acc = Done (acc ++ rem o idx ls bs started ++ [o_eol o]).
 Proof.
   induction ls as [|x ls IH]; intros bs started idx acc Hidx Hok Hutf.
@@ -223,9 +223,8 @@ Proof.
       cbn [fwd_finish fwd_tail rem]. rewrite Ebr. cbn [length]. rewrite firstn_nil. cbn [flat_map app].
       unfold lsep. cbn [nonempty]. rewrite andb_false_r. reflexivity.
   - cbn [fwd_lines].
-    assert (Hv : (N.eqb (o_eol o) LF && negb (utf8_valid x)) = false).
-    { destruct (N.eqb (o_eol o) LF) eqn:E; [|reflexivity].
-      specialize (Hutf eq_refl). inversion Hutf as [|? ? Hx _]; subst. rewrite Hx. reflexivity. }
+    assert (Hv : negb (utf8_valid x) = false).
+    { inversion Hutf as [|? ? Hx _]; subst. rewrite Hx. reflexivity. }
     rewrite Hv.
     assert (Hn : idx + Z.of_nat (length (x :: ls)) = idx + 1 + Z.of_nat (length ls)) by (cbn [length]; lia).
     rewrite Hn in Hok.
@@ -235,7 +234,7 @@ Proof.
     + cbn [rem]. rewrite app_nil_r. reflexivity.
     + rewrite (IH (r0 :: rest') a (idx + 1) (acc ++ out) ltac:(lia) H2).
       * rewrite <- !app_assoc. reflexivity.
-      * intros E. specialize (Hutf E). inversion Hutf; assumption.
+      * inversion Hutf; assumption.
 Qed.
 
 (** the remainder from the very start is the selection of the statement *)
@@ -273,7 +272,7 @@ Qed.
     the EOL (or concatenated under --no-join), then one EOL *)
 Theorem C05_forward o L bs :
   L <> [] -> bs <> [] -> fwd_ok 1 (Z.of_nat (length L)) bs -> last_marked bs ->
-  (N.eqb (o_eol o) LF = true -> Forall (fun l => utf8_valid l = true) L) ->
+  Forall (fun l => utf8_valid l = true) L ->
   exists x, spec_items L (o_fallback o) (o_join o) [o_eol o] bs = Some x
             /\ fwd_lines o L bs false 0 [] = Done (x ++ [o_eol o]).
 Proof.
